@@ -40,6 +40,13 @@ CHECKS = {
         technique="TLA+ model checking (TLC) of encoder+decoder composition + trace validation of three real encode->parse paths",
         design_ref="6/C02",
     ),
+    "C09": dict(
+        category="model_checking",
+        text="TLC exhaustively checks an implementation-shaped TLA+ model of LimitedStream plus its environment (every scenario x call sequence x fragmentation/fault choice within bounds) against an observables-only contract (no over-read, prefix, position accounting, disconnect/too-large table, no truncation, caller buffer, step bound); models of the two known defective implementations must fail. All exported model behaviours and the get_input_stream decision table are replayed on the real code, and enumerated + seeded executions under raw/BufferedReader/TextIOWrapper are judged call by call by the TLC trace spec with the same contract operators.",
+        note="Trusted: TLC, JSON trace encoding, harness/limitedstream.py (plan stream, recorder). Exhaustive only for the raw stream within bounds (data <= 8 bytes, <= 5 calls, <= 4 bytes per underlying call, <= 2 injected errors); buffering wrappers are trace-validated only and content claims weaken after an exception under them; hang detection counts underlying calls, not wall-clock.",
+        technique="TLA+ model checking (TLC) + spec-to-code behaviour replay + trace validation",
+        design_ref="6/C09",
+    ),
     # --- END CHECKS (new entries go above this line) ---
 }
 
@@ -52,7 +59,6 @@ NOT_APPLICABLE = {
     "C06": "check not built yet in this round (specification planned in DESIGN.md section 6/C06); nothing is claimed until it is",
     "C07": "check not built yet in this round (specification planned in DESIGN.md section 6/C07); nothing is claimed until it is",
     "C08": "check not built yet in this round (specification planned in DESIGN.md section 6/C08); nothing is claimed until it is",
-    "C09": "check not built yet in this round (specification planned in DESIGN.md section 6/C09); nothing is claimed until it is",
     "C11": "check not built yet in this round (specification planned in DESIGN.md section 6/C11); nothing is claimed until it is",
     "C12": "check not built yet in this round (specification planned in DESIGN.md section 6/C12); nothing is claimed until it is",
     "C13": "check not built yet in this round (specification planned in DESIGN.md section 6/C13); nothing is claimed until it is",
